@@ -161,10 +161,15 @@ fn check_rows(c: &RowCase, obs: &mut O) -> Verdict {
     use acb::portfolio::TxActionSpecifics;
     crate::observe::reset_globals(c.fx.today);
     let mut csv = String::from("security,trade date,settlement date,action,shares,amount/share,commission,currency,exchange rate,commission currency,commission exchange rate\n");
-    for (td, cur, rate, ccur, crate_) in &c.rows { csv += &format!("FOO,{td},{td},Buy,1,10,1,{cur},{rate},{ccur},{crate_}\n"); }
+    // half of the inputs write their dates as year-day-month and say so with --date-fmt (a day <= 12 then also reads as a month)
+    let ydm = c.fx.lookups.len() % 2 == 0;
+    let show = |td: &str| -> String { if ydm { let p: Vec<&str> = td.split('-').collect(); format!("{}-{}-{}", p[0], p[2], p[1]) } else { td.to_string() } };
+    for (td, cur, rate, ccur, crate_) in &c.rows { let d = show(td); csv += &format!("FOO,{d},{d},Buy,1,10,1,{cur},{rate},{ccur},{crate_}\n"); }
+    let parse_opts = acb::portfolio::io::tx_csv::TxCsvParseOptions { date_format: if ydm { Some(acb::util::date::parse_dyn_date_format("[year]-[day]-[month]").expect("date format")) } else { None } };
+    if ydm { obs.class("dates-written-year-day-month"); }
     let bank = FakeBank { cal: c.fx.cal.clone(), cutoff: c.fx.cutoff, requests: Rc::new(RefCell::new(vec![])) };
     let loader = RateLoader::new_cached_remote_loader(false, Box::new(InMemoryRatesCache::new()), Box::new(bank), WriteHandle::empty_write_handle());
-    let res = guard(|| async_std::task::block_on(acb::app::run_acb_app_to_delta_models(vec![acb::util::rw::DescribedReader::from_string("rows.csv".into(), csv.clone())], Default::default(), &Default::default(), loader, WriteHandle::empty_write_handle())));
+    let res = guard(|| async_std::task::block_on(acb::app::run_acb_app_to_delta_models(vec![acb::util::rw::DescribedReader::from_string("rows.csv".into(), csv.clone())], Default::default(), &parse_opts, loader, WriteHandle::empty_write_handle())));
     let res = match res { Ok(r) => r, Err(p) => return Verdict::Fail(format!("panic: {}\n{csv}", p.sig())) };
     // expected per row
     let one = rust_decimal::Decimal::ONE;
